@@ -15,7 +15,7 @@ import vlib
 PID = "C12"
 GATE_K = {"quick": 3, "thorough": 5}
 GATE_REPS = {"quick": 2, "thorough": 2}
-MIRROR_REPS = {"quick": 1, "thorough": 8}
+MIRROR_REPS = {"quick": 1, "thorough": 4}
 HARNESS = ["mcp/c12_httpgate_test.go"]
 DIMS = ["listener", "host", "ctype", "accept", "body", "vhdr", "meta", "mm", "mn", "mp", "msg"]
 
@@ -35,6 +35,9 @@ def mirror_value_name(c):
 
 def mirror_sig(e):
     o = e["o"]
+    if not o["sibok"] or not o["own"]:
+        # a header carries the value of another parameter (or a sibling was refused / altered)
+        return "mirror:depth=%d,siblings=%d:%s" % (e["c"]["depth"], e["c"]["nsib"], "crossed" if o["sent"] else "not-sent")
     if not o["sent"]:
         how = "not-sent"
     elif o["code"] == -32020:
@@ -205,7 +208,7 @@ def run(tier, seed, replay):
                 v.drift.append("model lead not reproduced on the real handlers: first=%s cls=%s %s" % (p["first"], p["cls"], k))
     if mrows:
         mslim = os.path.join(out, "mirror_obs_mon.ndjson")
-        slim(mrows, mslim, ("accepted", "same", "code", "hdr"))
+        slim(mrows, mslim, ("accepted", "same", "code", "hdr", "own", "sibok"))
         fails, r2 = vlib.run_monitor("HeaderMirrorMon", "HeaderMirrorMon.cfg", mslim, timeout=900)
         v.add_tlc("HeaderMirrorMon", r2)
         by_line = collections.defaultdict(dict)
@@ -216,8 +219,9 @@ def run(tier, seed, replay):
             if "Agreement" in by_line[line]:
                 mfail_lines.add(line)
                 v.violation(mirror_sig(e), "the SDK client's own tools/call for a schema-valid %s argument (class %s, annotation depth %d) "
-                            "was not accepted unaltered by the SDK server (code %d, client sent header form '%s')"
-                            % (e["c"]["ty"], e["c"]["val"], e["c"]["depth"], e["o"]["code"], e["o"]["hdr"]),
+                            "with %d annotated sibling(s) was not accepted unaltered by the SDK server, or a header did not carry its own parameter's value "
+                            "(code %d, header form '%s', own=%s, siblings ok=%s)"
+                            % (e["c"]["ty"], e["c"]["val"], e["c"]["depth"], e["c"]["nsib"], e["o"]["code"], e["o"]["hdr"], e["o"]["own"], e["o"]["sibok"]),
                             {"table": "mirror", "c": e["c"], "o": e["o"], "conc": e.get("conc")})
             elif "drift" in by_line[line]:
                 v.drift.append("mirror outcome differs from HeaderMirrorDefs!Expected: %s got %s" % (key(e["c"]), key(e["o"])))
@@ -237,7 +241,7 @@ def run(tier, seed, replay):
         len({key(r["c"]) for r in mrows if r["c"]["val"] not in ("ascii", "small", "true")})
     v.cov["rule"] = ("gate: every abstract POST request at most K=%d dimensions (of 11) away from the handler's well-formed request, "
                      "plus the 2^11 default/representative-fault product, on stateful, stateless and SSE handlers, x%d seeded "
-                     "concretisations; mirror: complete (depth x type x header-name x sibling x value class) table x%d seeded "
+                     "concretisations; mirror: complete (depth 1..8 x type x header-name x 0..2 annotated siblings x value class) table x%d seeded "
                      "concretisations; non-trivial = at least one faulty / non-default class (gate) or a value class other than "
                      "plain ASCII / small / true (mirror)" % (K, greps, mreps))
     v.cov["exhaustive"] = False  # the gate product is K-bounded (the mirror table is complete)
